@@ -6,7 +6,7 @@
 //
 //	AUTH route=<ws|smoke> secret=<0|1> hdr=<->|<B|b><idx> query=<->|idx cookie=<->|idx T<idx>=<facts> .. | entered=<0|1> status=<n>
 //
-// where facts = wellFormed,alg,macOk,exp,iat,nbf (offsets in seconds, '-' = absent) are computed by a
+// where facts = wellFormed,alg,macOk,exp,iat,nbf,iss (offsets in seconds, '-' = absent; iss: H = "HDS", o = another) are computed by a
 // reference written here (not by the code under test); the Lean driver evaluates Auth.admit on them.
 package main
 
@@ -45,6 +45,7 @@ type tok struct {
 	alg           string
 	macOk         bool
 	exp, iat, nbf *int64
+	iss           string // "" absent
 }
 
 func mac(alg, secret, input string) []byte {
@@ -67,9 +68,15 @@ func mac(alg, secret, input string) []byte {
 func enc(v any) string { b, _ := json.Marshal(v); return b64.EncodeToString(b) }
 
 // build a token signed with signSecret; facts are relative to curSecret (what the server holds)
-func build(kind, alg, signSecret, curSecret string, exp, iat, nbf *int64, now int64) tok {
+func build(kind, alg, signSecret, curSecret string, exp, iat, nbf *int64, now int64, iss string) tok {
 	hdr := map[string]any{"alg": alg, "typ": "JWT"}
-	cl := map[string]any{"iss": "HDS", "app_key": "app"}
+	cl := map[string]any{"app_key": "app"}
+	if iss != "" {
+		cl["iss"] = iss
+	}
+	if kind == "identity-shaped" { // what the server signs for the discovery service: its endpoint, nothing else
+		cl = map[string]any{"endpoint": "http://localhost:1"}
+	}
 	if exp != nil {
 		cl["exp"] = now + *exp
 	}
@@ -81,7 +88,7 @@ func build(kind, alg, signSecret, curSecret string, exp, iat, nbf *int64, now in
 	}
 	input := enc(hdr) + "." + enc(cl)
 	sig := mac(alg, signSecret, input)
-	t := tok{kind: kind, str: input + "." + b64.EncodeToString(sig), wellFormed: true, alg: alg, exp: exp, iat: iat, nbf: nbf}
+	t := tok{kind: kind, str: input + "." + b64.EncodeToString(sig), wellFormed: true, alg: alg, exp: exp, iat: iat, nbf: nbf, iss: iss}
 	if want := mac(alg, curSecret, input); want != nil && curSecret != "" && hmac.Equal(want, sig) {
 		t.macOk = true
 	}
@@ -107,7 +114,14 @@ func factTok(t tok) string {
 	if alg == "" {
 		alg = "?"
 	}
-	return fmt.Sprintf("%s,%s,%s,%s,%s,%s", b(t.wellFormed), alg, b(t.macOk), o(t.exp), o(t.iat), o(t.nbf))
+	iss := "o"
+	switch t.iss {
+	case "":
+		iss = "-"
+	case "HDS":
+		iss = "H"
+	}
+	return fmt.Sprintf("%s,%s,%s,%s,%s,%s,%s", b(t.wellFormed), alg, b(t.macOk), o(t.exp), o(t.iat), o(t.nbf), iss)
 }
 
 func main() {
@@ -127,6 +141,7 @@ func main() {
 			ws.Close()
 		},
 	})
+	mux.HandleFunc("/health", client.HandleHealthCheck)
 	mux.HandleFunc("/smoke-test", hagallhttp.VerifyAuthTokenHandler(client, func(w http.ResponseWriter, r *http.Request) {
 		atomic.AddInt32(&entered, 1)
 		w.WriteHeader(204)
@@ -157,7 +172,16 @@ func main() {
 			exp, iat, nbf := p64(3600), p64(-5), (*int64)(nil)
 			alg := "HS256"
 			kind := "valid"
-			switch rnd.Intn(22) {
+			iss := "HDS"
+			switch rnd.Intn(26) {
+			case 13:
+				kind, iss = "no-issuer", ""
+			case 14:
+				kind, iss = "another-issuer", "hagall"
+			case 15:
+				kind, iss, exp, iat = "identity-shaped", "", nil, nil
+			case 16:
+				kind, iss = "issuer-lowercase", "hds"
 			case 0:
 				kind, signWith = "wrong-secret", other
 			case 1:
@@ -185,16 +209,27 @@ func main() {
 			case 12:
 				kind, iat, exp = "iat-future-and-expired", p64(5), p64(-30)
 			}
-			t := build(kind, alg, signWith, cur, exp, iat, nbf, now)
+			t := build(kind, alg, signWith, cur, exp, iat, nbf, now, iss)
+			if cur != "" && rnd.Intn(12) == 0 {
+				// the real thing: ask the server for its health as the discovery service does and present what it hands out
+				hreq, _ := http.NewRequest("GET", srv.URL+"/health", nil)
+				hreq.Header.Set("User-Agent", "HDS v1")
+				if hres, err := http.DefaultClient.Do(hreq); err == nil {
+					hres.Body.Close()
+					if id := strings.TrimPrefix(hres.Header.Get("Authorization"), "Bearer "); id != "" {
+						return tok{kind: "identity-from-health", str: id, wellFormed: true, alg: "HS256", macOk: true}
+					}
+				}
+			}
 			parts := strings.Split(t.str, ".")
 			switch rnd.Intn(16) {
 			case 0: // alg none, no signature
 				hdr := enc(map[string]any{"alg": "none", "typ": "JWT"})
-				t = tok{kind: "alg-none", str: hdr + "." + parts[1] + ".", wellFormed: true, alg: "none", exp: exp, iat: iat, nbf: nbf}
+				t = tok{kind: "alg-none", str: hdr + "." + parts[1] + ".", wellFormed: true, alg: "none", exp: exp, iat: iat, nbf: nbf, iss: iss}
 			case 1: // asymmetric algorithm name with an HMAC signature
 				hdr := enc(map[string]any{"alg": "RS256", "typ": "JWT"})
 				in := hdr + "." + parts[1]
-				t = tok{kind: "alg-rs256", str: in + "." + b64.EncodeToString(mac("HS256", cur, in)), wellFormed: true, alg: "RS256", exp: exp, iat: iat, nbf: nbf}
+				t = tok{kind: "alg-rs256", str: in + "." + b64.EncodeToString(mac("HS256", cur, in)), wellFormed: true, alg: "RS256", exp: exp, iat: iat, nbf: nbf, iss: iss}
 			case 2: // signature bit flip
 				s, _ := b64.DecodeString(parts[2])
 				if len(s) > 0 {
@@ -204,7 +239,7 @@ func main() {
 			case 3: // payload changed after signing
 				cl := enc(map[string]any{"iss": "HDS", "app_key": "other", "exp": now + 3600})
 				t.str, t.kind, t.macOk = parts[0]+"."+cl+"."+parts[2], "payload-swapped", false
-				t.exp, t.iat, t.nbf = p64(3600), nil, nil
+				t.exp, t.iat, t.nbf, t.iss = p64(3600), nil, nil, "HDS"
 			case 4:
 				t = tok{kind: "two-segments", str: parts[0] + "." + parts[1]}
 			case 5:
@@ -218,7 +253,7 @@ func main() {
 			case 9: // lower-case algorithm name
 				hdr := enc(map[string]any{"alg": "hs256", "typ": "JWT"})
 				in := hdr + "." + parts[1]
-				t = tok{kind: "alg-lowercase", str: in + "." + b64.EncodeToString(mac("HS256", cur, in)), wellFormed: true, alg: "hs256", exp: exp, iat: iat, nbf: nbf}
+				t = tok{kind: "alg-lowercase", str: in + "." + b64.EncodeToString(mac("HS256", cur, in)), wellFormed: true, alg: "hs256", exp: exp, iat: iat, nbf: nbf, iss: iss}
 			}
 			return t
 		}
@@ -306,8 +341,8 @@ func main() {
 	// HTTP wrapper, called here from several goroutines while another one keeps changing the secret
 	{
 		now := time.Now().Unix()
-		forged := []tok{build("empty-key", "HS256", "", "", p64(3600), p64(-5), nil, now),
-			build("wrong-secret", "HS256", secrets[1], secrets[1], p64(3600), p64(-5), nil, now)}
+		forged := []tok{build("empty-key", "HS256", "", "", p64(3600), p64(-5), nil, now, "HDS"),
+			build("wrong-secret", "HS256", secrets[1], secrets[1], p64(3600), p64(-5), nil, now, "HDS")}
 		hs := hagallhttp.VerifyAuthToken(context.Background(), client)
 		var inside int32
 		wrapped := hagallhttp.VerifyAuthTokenHandler(client, func(w http.ResponseWriter, r *http.Request) { atomic.AddInt32(&inside, 1) })
@@ -363,7 +398,7 @@ func main() {
 	cur = secrets[0]
 	client.SetServerData("srv", cur)
 	now := time.Now().Unix()
-	short := build("short-lived", "HS256", cur, cur, p64(2), p64(-1), nil, now)
+	short := build("short-lived", "HS256", cur, cur, p64(2), p64(-1), nil, now, "HDS")
 	for phase := 0; phase < 2; phase++ {
 		before := atomic.LoadInt32(&entered)
 		req, _ := http.NewRequest("GET", srv.URL+"/smoke-test", nil)
